@@ -273,6 +273,29 @@ def work_binary(chunk):
                     if prob:
                         acc.violation('C12:op%s:two-independent-operands' % op, dict(kind='binary', op=op, a=na, b=nb, form=form),
                                       '(%s) %s (%s), %s operands: %s' % (na, op, nb, form, prob), 1)
+                    if prob is None and form == 'scalar':
+                        # the augmented-assignment spelling (a op= b; with the same object on both sides when the operands
+                        # are equal): whatever the class does for it, the result is the ring operation
+                        try:
+                            zc = Bicomplex(complex(*a1), complex(*a2))
+                            zd = zc if na == nb else Bicomplex(complex(*b1), complex(*b2))
+                            if op == '+':
+                                zc += zd
+                            elif op == '-':
+                                zc -= zd
+                            elif op == '*':
+                                zc *= zd
+                            else:
+                                zc /= zd
+                            got2 = [float(np.real(zc.z1)), float(np.imag(zc.z1)), float(np.real(zc.z2)), float(np.imag(zc.z2))]
+                            if not all(abs(g - w_) <= allow for g, w_ in zip(got2, want)):
+                                prob = 'a %s= %s gives (re, i, j, ij) = %r, exact %r' % (op, 'a' if na == nb else 'b', got2, want)
+                        except Exception as e:      # noqa: BLE001
+                            prob = 'a %s= b raised %s: %s' % (op, type(e).__name__, e)
+                        acc.case(('binary-inplace', op, na, nb), nontrivial=True, cell='binary/inplace', outcome=prob is None)
+                        if prob:
+                            acc.violation('C12:op%s:augmented-assignment' % op, dict(kind='binary', op=op, a=na, b=nb, form='inplace'),
+                                          '(%s) %s= (%s): %s' % (na, op, nb, prob), 1)
     return acc
 
 
